@@ -385,3 +385,24 @@ Definition explicit_forced (n : net) (inc : list Z) (s t : Z) (p : list Z) : boo
   let g := ngraph n in
   let A := s :: t :: inc in
   echeck g s t p (orl (fscan g t A p) (bscan g s A p)).
+
+(* ------------------------------------------------------------------ pieces named for the translator tie (Gen/RouteGen.v)
+   search_by = the contract of the networkx calls of compute_constrained_path: shortest_simple_paths enumerates the
+   loop-free paths by increasing weight (NetworkXNoPath when there is none), `next(p for p in ... if filt p)` takes the
+   first one passing the filter (StopIteration when none does), dijkstra_path is a lightest path.  What is decided
+   around them (the filter, when to fall back, the two reasons) comes from gnpy's source. *)
+Definition search_by (g : graph) (s t : Z) (filt : list Z -> bool) (fall_back : bool) (r_none r_constraint : string)
+  : outcome :=
+  let all := all_routes g s t in
+  match best g all with
+  | None => RBlock r_none
+  | Some pu =>
+      match best g (filter filt all) with
+      | Some p => RPath p
+      | None => if fall_back then RPath pu else RBlock r_constraint
+      end
+  end.
+(* json_io.network_from_json: weight of the edge leaving a node, in cm (0.01 m = 1) *)
+Definition edge_weight (is_fibre : bool) (length_cm : Z) : Z := if is_fibre then length_cm else 1.
+(* find_reversed_path: the elements whose OMS is collected *)
+Definition rev_keeps (n : net) (el : Z) : bool := negb (is_trx n el) && negb (is_roadm n el).
